@@ -80,3 +80,11 @@ func zzIter() int { panic("spec only") }
 
 //@ func useHelper
 //@ ensures [iff] result == (n >= 10 && n <= 100)
+
+//@ func jumpy
+//@ requires 3 <= n && n <= 100
+//@ ensures [bogus] result == n
+
+//@ func steady
+//@ requires 0 <= n && n <= 100
+//@ ensures [ok] result0 == n && result1 == 3 + 2*n
